@@ -1,0 +1,40 @@
+//go:build verif
+
+package hlog
+
+// Contracts for the verifier in /verif (govc). Comment-only file.
+
+//@ track Logger.With, Logger.WithContext, Handler.ServeHTTP, mutil.WrapWriter, WriterProxy.Status, WriterProxy.BytesWritten, AccessHandler$1$1$1.f
+
+// Per request, NewHandler derives a logger of its own from the one it was
+// given (Logger.With returns storage allocated during that call, proved in
+// package zerolog) and leaves the captured logger untouched.
+//@ func NewHandler$1$1(w, r)
+//@   props C18 C05
+//@   arith int
+//@   flag replay hlog_isolation
+//@   modifies nothing
+//@   requires log != nil && next != nil && deref(next) != nil && r != nil
+//@   requires logctx(log.context)
+//@   ensures ncalls(Logger.With) == old(ncalls(Logger.With)) + 1
+//@   ensures same(callarg(Logger.With, old(ncalls(Logger.With)), 0).context, log.context) && callarg(Logger.With, old(ncalls(Logger.With)), 0).w == log.w && callarg(Logger.With, old(ncalls(Logger.With)), 0).level == log.level && same(callarg(Logger.With, old(ncalls(Logger.With)), 0).hooks, log.hooks)
+//@   ensures ncalls(Logger.WithContext) == old(ncalls(Logger.WithContext)) + 1 && same(callarg(Logger.WithContext, old(ncalls(Logger.WithContext)), 0).context, callres(Logger.With, old(ncalls(Logger.With)), 0).l.context)
+//@   ensures ncalls(Handler.ServeHTTP) == old(ncalls(Handler.ServeHTTP)) + 1 && callarg(Handler.ServeHTTP, old(ncalls(Handler.ServeHTTP)), 0) == deref(next) && callarg(Handler.ServeHTTP, old(ncalls(Handler.ServeHTTP)), 1) == w
+
+// AccessHandler: wraps the writer once, serves through the proxy, and the
+// deferred callback receives exactly Status() and BytesWritten() of that
+// proxy, read after next returned.
+//@ func AccessHandler$1$1(w, r)
+//@   props C18
+//@   arith int
+//@   requires next != nil && deref(next) != nil && f != nil && deref(f) != nil && r != nil
+//@   ensures ncalls(mutil.WrapWriter) == old(ncalls(mutil.WrapWriter)) + 1 && callarg(mutil.WrapWriter, old(ncalls(mutil.WrapWriter)), 0) == w
+//@   ensures ncalls(Handler.ServeHTTP) == old(ncalls(Handler.ServeHTTP)) + 1 && callarg(Handler.ServeHTTP, old(ncalls(Handler.ServeHTTP)), 1) == callres(mutil.WrapWriter, old(ncalls(mutil.WrapWriter)), 0) && callarg(Handler.ServeHTTP, old(ncalls(Handler.ServeHTTP)), 2) == r
+
+//@ func AccessHandler$1$1$1()
+//@   props C18
+//@   arith int
+//@   requires f != nil && deref(f) != nil && lw != nil && deref(lw) != nil && r != nil && start != nil
+//@   ensures ncalls(WriterProxy.Status) == old(ncalls(WriterProxy.Status)) + 1 && callarg(WriterProxy.Status, old(ncalls(WriterProxy.Status)), 0) == deref(lw)
+//@   ensures ncalls(WriterProxy.BytesWritten) == old(ncalls(WriterProxy.BytesWritten)) + 1 && callarg(WriterProxy.BytesWritten, old(ncalls(WriterProxy.BytesWritten)), 0) == deref(lw)
+//@   ensures ncalls(AccessHandler$1$1$1.f) == old(ncalls(AccessHandler$1$1$1.f)) + 1 && callarg(AccessHandler$1$1$1.f, old(ncalls(AccessHandler$1$1$1.f)), 0) == deref(r) && callarg(AccessHandler$1$1$1.f, old(ncalls(AccessHandler$1$1$1.f)), 1) == callres(WriterProxy.Status, old(ncalls(WriterProxy.Status)), 0) && callarg(AccessHandler$1$1$1.f, old(ncalls(AccessHandler$1$1$1.f)), 2) == callres(WriterProxy.BytesWritten, old(ncalls(WriterProxy.BytesWritten)), 0)
